@@ -50,7 +50,7 @@ pub const CHECKS: &[&str] = &["chk_true", "chk_false", "chk_even", "chk_short", 
 pub const CHAR_CHECKS: &[&str] = &["cc_true", "cc_false", "cc_alpha", "cc_not_b", "cc_lower", "cc_ascii"];
 pub const EXTERNS: &[&str] = &[
     "ext_word", "ext_one", "ext_num", "ext_probe0", "ext_probe1", "ext_probe2", "ext_probe3", "ext_opt_a",
-    "ext_fail", "ext_wide", "ext_upto",
+    "ext_fail", "ext_wide", "ext_upto", "ext_ws",
 ];
 
 pub fn decide_check(name: &str, debug: &str, salt: u64) -> bool {
@@ -113,6 +113,11 @@ pub fn decide_extern(name: &str, s: &str, salt: u64) -> Result<(String, usize), 
             Ok((format!("{:?}", &s[..n]), n))
         }
         "ext_fail" => Err("always fails"),
+        // a total whitespace skipper for `@extern(..) Whitespace;` (space, tab, underscore)
+        "ext_ws" => {
+            let n = s.bytes().take_while(|b| matches!(b, b' ' | b'\t' | b'_')).count();
+            Ok((format!("{:?}", &s[..n]), n))
+        }
         "ext_wide" => match s.chars().next() {
             Some(c) if c.len_utf8() > 1 => Ok((format!("{:?}", c.to_string()), c.len_utf8())),
             _ => Err("expected a multi-byte character"),
@@ -129,7 +134,7 @@ pub fn decide_extern(name: &str, s: &str, salt: u64) -> Result<(String, usize), 
 pub fn extern_can_be_empty(path: &str) -> bool {
     let name = path.rsplit("::").next().unwrap_or(path);
     let name = name.strip_prefix("c_").unwrap_or(name);
-    name.starts_with("ext_probe") || name == "ext_opt_a"
+    name.starts_with("ext_probe") || name == "ext_opt_a" || name == "ext_ws"
 }
 
 /// the declared return type an extern rule must carry (None => String by default / `&str`.into())
@@ -215,7 +220,7 @@ fn value_slice<'a>(name: &str, s: &'a str, n: usize) -> &'a str {
     }
 }
 str_externs!(ext_word / c_ext_word, ext_probe0 / c_ext_probe0, ext_probe1 / c_ext_probe1, ext_probe2 / c_ext_probe2,
-             ext_probe3 / c_ext_probe3, ext_probe4 / c_ext_probe4, ext_probe5 / c_ext_probe5, ext_probe6 / c_ext_probe6, ext_probe7 / c_ext_probe7, ext_opt_a / c_ext_opt_a, ext_fail / c_ext_fail, ext_upto / c_ext_upto);
+             ext_probe3 / c_ext_probe3, ext_probe4 / c_ext_probe4, ext_probe5 / c_ext_probe5, ext_probe6 / c_ext_probe6, ext_probe7 / c_ext_probe7, ext_opt_a / c_ext_opt_a, ext_fail / c_ext_fail, ext_upto / c_ext_upto, ext_ws / c_ext_ws);
 
 // externs returning String directly
 pub fn ext_one(s: &str) -> Result<(String, usize), &'static str> {
